@@ -476,10 +476,11 @@ def p_fromgeo_refined(e, arg):
     rock volume, vertical and atmosphere connections exactly; horizontal connections through their squares (the edge length
     and the perpendicular distances are square roots): area^2 = |edge|^2 x (lower height)^2, distance_i^2 x |edge|^2 =
     cross(edge, centre_i - node)^2."""
-    (nx, ny, nz, atm), nsurf, cols = arg
-    tag = '[%dx%dx%d,atm%d,%d surfaces,refine%s]' % (nx, ny, nz, atm, nsurf, tuple(cols))
+    (nx, ny, nz, atm), nsurf, cols = arg[:3]
+    order = arg[3] if len(arg) > 3 else None
+    tag = '[%dx%dx%d,atm%d,%d surfaces,refine%s%s]' % (nx, ny, nz, atm, nsurf, tuple(cols), ',order=%s' % order if order else '')
     def prog(e):
-        geo, S = build_rect(e, nx, ny, nz, atm, 0, nsurf)
+        geo, S = build_rect(e, nx, ny, nz, atm, 0, nsurf, block_order=order)
         e.call(e.getattr(geo, 'refine'), [[geo.fields['columnlist'][k] for k in cols]])
         tg = e.load_module('t2grids').globals
         grid = e.call(e.getattr(e.call(tg['t2grid'], []), 'fromgeo'), [geo])
@@ -549,7 +550,7 @@ def p_fromgeo_refined(e, arg):
     e.explore(prog, 'fromgeo_refined')
 
 
-REFINED = [((2, 1, 2, 0), 0, (0,)), ((2, 2, 2, 2), 0, (0,))]
+REFINED = [((2, 1, 2, 0), 0, (0,)), ((2, 2, 2, 2), 0, (0,)), ((2, 1, 2, 1), 0, (0,), 'dmplex'), ((2, 1, 2, 0), 0, (1,), 'layer_column')]
 REFINED_THOROUGH = [((2, 2, 2, 0), 1, (0,)), ((3, 2, 2, 1), 0, (0, 1)), ((2, 2, 3, 2), 1, (3,))]
 
 RECTS = [(2, 1, 2, 0, 0, 1), (2, 1, 2, 1, 0, 2), (2, 2, 2, 2, 0, 1), (3, 1, 3, 0, 1, 1), (1, 2, 3, 1, 2, 1), (2, 1, 3, 2, 3, 2), (3, 2, 2, 0, 0, 0)]
@@ -582,6 +583,8 @@ def replay(obname, model, result):
     """Native replay: a real one- or two-column geometry with the model's elevations."""
     m = model or {}
     prog = result['program']
+    if prog == 'p_fromgeo_refined':
+        return ("from contracts.c04_native import native_fromgeo_refined\nok, detail = native_fromgeo_refined(%r, %r)\n") % (tuple(result['arg']), m)
     if prog == 'p_fromgeo_rect':
         return ("from contracts.c04_native import native_fromgeo_rect\nok, detail = native_fromgeo_rect(%r, %r)\n") % (tuple(result['arg']), m)
     if prog in ('p_block_functions', 'p_column_volume', 'p_vertical_connection', 'p_connection_params', 'p_horizontal_connection', 'p_connection_names') and 'z0' in m:
